@@ -202,6 +202,19 @@ def evalSeq : Nat → Store → Nat → List Expr → Res Value
     | (.ok _, σ) => evalSeq k σ ρ es
 end
 
+/-- R7RS §5.3.1: a top-level form in the frame `ρ` — an expression yields its value; a definition
+evaluates its right-hand side and binds the name in `ρ` (no value) -/
+def evalTop (k : Nat) (σ : Store) (ρ : Nat) : Statement → Res (Option Value)
+  | .expr e =>
+    match eval k σ ρ e with
+    | (.ok v, σ) => (.ok (some v), σ)
+    | (.error er, σ) => (.error er, σ)
+  | .definition (.mk x e _) =>
+    match eval k σ ρ e with
+    | (.ok v, σ) => (.ok none, σ.define ρ x v)
+    | (.error er, σ) => (.error er, σ)
+  | _ => (.error (.syntax, none), σ)
+
 /-! ## how outcomes of the model and of the reference are compared
 
 R7RS leaves the order of the checks of a procedure call unspecified.  The reference (like
